@@ -302,6 +302,7 @@ def run_scenario(scn: dict[str, Any], wd: Path, conf_name: str = "ladim.yaml", w
     if tweak is not None:
         tweak(conf)
     cf = wd / conf_name
+    cf.parent.mkdir(parents=True, exist_ok=True)
     write_yaml(conf, cf)
     res = run_ladim(cf, cwd=wd)
     res.outputs = output_files(conf)
